@@ -721,7 +721,13 @@ def build_cases(chk, arim, rng, quick):
     for _ in range(24 * K):
         s = G.shape(zero=0.1)
         coords = G.coords(s, "int" if G.p(0.6) else "dy")     # small integers: many equidistant points
-        add("closest", "empty" if 0 in s else "valid", lib_closest(g, s, coords, G.ints((3,), 2) if G.p(0.6) else G.dy((3,))))
+        stream = "empty" if 0 in s else "valid"
+        if stream == "valid" and coords.size > 3 and G.p(0.45):
+            # several copies of two points: the minimum is reached at several flat indices (numpy.argmin: the first one)
+            two = G.coords((2,), "int")
+            coords = two[G.rng.integers(0, 2, size=tuple(s))]
+            stream = "ties"
+        add("closest", stream, lib_closest(g, s, coords, G.ints((3,), 2) if G.p(0.6) else G.dy((3,))))
 
     # ---- allclose ----------------------------------------------------------------------------------------------
     one = [[1.0, 2, 3]]
